@@ -27,11 +27,11 @@ chk.extra['rule'] = ('writer histories: random sequences of deferred opens (mode
                      'tier-0 inputs x warning-raising options x -maxwarn. A case is non-trivial if a destination '
                      'pre-exists, or a crash point lies strictly inside finalisation, or it is a CLI run with >= 1 '
                      'warning; distinct = distinct protocol line')
-chk.lean(['VermouthProps.C07'], 'driver_c07')
+chk.lean(["VermouthProps.C07"], "driver_c07")
 chk.trusted.append('harness/c07.py: name <-> Path parser (#name.N# pattern), crash injection shims in the '
                    'vermouth.file_writer namespace, audit hook, oracle')
 chk.assumptions.append('file-system steps (rename, create, append, unlink) are atomic; temp directory disjoint from '
-                       'destinations; one directory; text-mode data is ASCII without CR')
+                       'destinations; one directory; text-mode data is ASCII (CR included)')
 
 import vermouth.file_writer as FW
 from vermouth.file_writer import DeferredFileWriter
@@ -261,6 +261,8 @@ def run_history(files, ops):
                     res = 'exists'
                 except KeyError:
                     res = 'keyerror'
+                except Exception as e:  # noqa
+                    res = 'exception:' + type(e).__name__
                 else:
                     with h:
                         if mode_kind(mode) == 0:
@@ -273,6 +275,9 @@ def run_history(files, ops):
                 try:
                     W.write()
                 except Crash:
+                    crashed = True
+                except Exception as e:  # noqa  (anything but the injected crash is a failure of write() itself)
+                    res = 'exception:' + type(e).__name__
                     crashed = True
                 finally:
                     INJ.active = False
@@ -347,8 +352,11 @@ def oracle_history(files, ops, out):
     prev_user = dict(files)
     # direct-write bookkeeping since the last finalise/close: name -> ('w', bytes) | ('a', bytes) ; None = not plain
     written = {}
+    aplus_first, trunc_after_aplus = set(), set()   # signature of F-C07-4
     dirty = False  # a crashed finalisation happened: later content clauses are not applied
     for i, (op, (res, pending, user, tmps, crashed)) in enumerate(zip(ops, out)):
+        if res.startswith('exception:'):
+            errs.append('op %d %r raised %s' % (i, op[:3], res[10:]))
         if op[0] == 'open':
             if user != prev_user:
                 errs.append('op %d %r changed the destination directory before finalisation: %s'
@@ -357,8 +365,12 @@ def oracle_history(files, ops, out):
             k = mode_kind(mode)
             if res == 'ok' and k != 0:
                 if k == 1 or k == 4:
+                    if name in aplus_first:
+                        trunc_after_aplus.add(name)
                     written[name] = ('w', data) if written.get(name, 1) is not None else None
-                elif k == 2:
+                elif k == 2 or k == 5:
+                    if k == 5 and name not in written:
+                        aplus_first.add(name)
                     if name in written:
                         if written[name] is not None:
                             written[name] = (written[name][0], written[name][1] + data)
@@ -366,14 +378,15 @@ def oracle_history(files, ops, out):
                         written[name] = ('a', data)
                 else:
                     written[name] = None       # update modes: content clause not applied
-            elif res in ('notfound',) and k == 3:
-                written[name] = None
+            # a failed open (r+ on a missing file, x) registers nothing: the name stays out of `written`,
+            # so the 'unrelated file changed' clause applies to it
         elif op[0] == 'close':
             if user != prev_user:
                 errs.append('op %d close() changed the destination directory' % i)
             if tmps and not dirty:
                 errs.append('op %d close() left temporary files behind: %s' % (i, sorted(tmps)))
             written = {}
+            aplus_first.clear()
         else:
             dests = list(written)
             # no pre-existing file is lost, whether or not the finalisation was interrupted
@@ -417,8 +430,9 @@ def oracle_history(files, ops, out):
             # entries that were not reached stay pending; forget the bookkeeping for finalised ones
             still = {p[1] for p in pending}
             written = {n: (w if not crashed else None) for n, w in written.items() if n in still}
+            aplus_first &= still
         prev_user = user
-    return errs
+    return errs, bool(trunc_after_aplus)
 
 
 # ---- generator ----------------------------------------------------------------
@@ -444,7 +458,7 @@ def gen_history(rng, maxops):
         n = rng.randint(lo, hi)
         if binary_ok and rng.random() < 0.5:
             return bytes(rng.randrange(256) for _ in range(n))
-        return ''.join(rng.choice('abcXYZ 019\n;[]') for _ in range(n)).encode()
+        return ''.join(rng.choice('abcXYZ 019\n\r;[]') for _ in range(n)).encode()
 
     files = {}
     for n in pool:
@@ -461,11 +475,12 @@ def gen_history(rng, maxops):
                 m = rng.choice(['w', 'w', 'w', 'a', 'a', 'r'])
             else:
                 m = rng.choice(['w', 'w', 'w', 'a', 'a', 'a', 'r', 'r+', 'w+', 'a+', 'x'])
-            if binary[n] or m == 'r':
+            isbin = binary[n] if rng.random() < 0.85 else not binary[n]   # mixed handles on one path
+            if isbin or m == 'r':
                 m += 'b'
             elif rng.random() < 0.1:
                 m += 't'
-            ops.append(('open', n, m, blob(binary[n])))
+            ops.append(('open', n, m, blob(isbin)))
         elif r < 0.88:
             ops.append(('fin', None))
         elif r < 0.96:
@@ -515,10 +530,12 @@ for cid, files, ops in histories:
     meta.append((cid, files, ops, out))
 models = chk.drv.ask(lines) if chk.lean_ok else [None] * len(lines)
 for ln, impl, mo, (cid, files, ops, out) in zip(lines, impls, models, meta):
-    errs = oracle_history(files, ops, out)
+    errs, sig4 = oracle_history(files, ops, out)
+    if sig4:
+        chk.count('hist_truncating_reopen_of_pending_a+')
     dests = {o[1] for o in ops if o[0] == 'open' and mode_kind(o[2]) != 0}
     pre = any(n in files for n in dests)
-    inner = any(o[0] == 'fin' and r[4] and o[1] > 0 for o, r in zip(ops, out))
+    inner = any(o[0] == 'fin' and r[4] and (o[1] or 0) > 0 for o, r in zip(ops, out))
     chk.count('hist_ops=%d' % (10 * (len(ops) // 10)))
     chk.count('hist_preexisting_dest' if pre else 'hist_fresh_dests_only')
     for o, r in zip(ops, out):
@@ -530,7 +547,7 @@ for ln, impl, mo, (cid, files, ops, out) in zip(lines, impls, models, meta):
             chk.count('close')
     if any(BAK_RE.match(n) for n in dests):
         chk.count('hist_backup_shaped_destination')
-    chk.case(cid, ln, impl, mo, errs, pre or inner)
+    chk.case(cid, ln, impl, mo, errs, pre or inner, finding='F-C07-4' if (errs and sig4) else None)
 
 # ----------------------------------------------------------------------------
 # C. the CLI gate
